@@ -601,9 +601,27 @@ def lossy_cache_keys(ctx, rid):
                    and isinstance(s.targets[0], ast.Name)}
         for st in stores:
             keys, base = [], st.targets[0]
-            while isinstance(base, ast.Subscript):
-                keys.append(base.slice)
-                base = base.value
+            resolved = True
+            for _ in range(8):
+                while isinstance(base, ast.Subscript):
+                    keys.append(base.slice)
+                    base = base.value
+                # a local that holds one level of the cache: `level = cache.setdefault(k, {})` / `level = cache[k]`
+                if isinstance(base, ast.Name) and base.id in assigns:
+                    v = assigns[base.id]
+                    if isinstance(v, ast.Call) and isinstance(v.func, ast.Attribute) and v.func.attr in ("setdefault", "get") and v.args:
+                        keys.append(v.args[0])
+                        base = v.func.value
+                        continue
+                    if isinstance(v, ast.Subscript):
+                        base = v
+                        continue
+                    resolved = False
+                elif isinstance(base, ast.Call) and isinstance(base.func, ast.Attribute) and base.func.attr in ("setdefault", "get") and base.args:
+                    keys.append(base.args[0])
+                    base = base.func.value
+                    continue
+                break
             key_exprs = [assigns.get(k.id, k) if isinstance(k, ast.Name) else k for k in keys]
             # does the stored value depend on a star parameter?
             def depends(expr, seen=()):
@@ -652,7 +670,8 @@ def lossy_cache_keys(ctx, rid):
                                            "objects with the same projection -- a second copy of xml.etree.ElementTree loaded beside the first, a test "
                                            "double with the same __name__ -- share one entry, so what a call returns depends on which of them an "
                                            "earlier call used" % (f.qual, q, [norm(e)[:50] for e in comps][:2])),
-                               (not comps, "%s caches a value built from `%s` under a key that does not contain it" % (f.qual, q))],
+                               (not comps and resolved and isinstance(base, ast.Name),
+                                "%s caches a value built from `%s` under a key that does not contain it" % (f.qual, q))],
                         detail={"function": f.qual, "parameter": q, "key_components": [norm(e) for e in comps]})
     if n < 1:
         raise AnalysisError("%s: no factory cache keyed on a star parameter found" % rid)
